@@ -350,6 +350,14 @@ func splitFilter(s, sep string) any {
 func uniqFilter(a []any) (result []any) {
 	seenMap := map[any]bool{}
 	seen := func(item any) bool {
+		if item == nil {
+			// nil has no type to inspect; it is a valid map key
+			if seenMap[nil] {
+				return true
+			}
+			seenMap[nil] = true
+			return false
+		}
 		if k := reflect.TypeOf(item).Kind(); k < reflect.Array || k == reflect.Ptr || k == reflect.UnsafePointer {
 			if seenMap[item] {
 				return true
@@ -374,6 +382,9 @@ func uniqFilter(a []any) (result []any) {
 }
 
 func eqItems(a, b any) bool {
+	if a == nil || b == nil {
+		return a == b
+	}
 	if reflect.TypeOf(a).Comparable() && reflect.TypeOf(b).Comparable() {
 		return a == b
 	}
